@@ -300,3 +300,129 @@ Proof.
   intros Hs Ho. cbv zeta. unfold chamfer, strictly_between. cbn [nth x2 y2]. rnum.
   repeat split; try reflexivity; [right|left]; lra.
 Qed.
+
+(* ---------------- C07: the closed trig outlines are wound clockwise ---------------- *)
+(* sum of a constant edge weight along an indexed open list *)
+Lemma open_area2_const (f : Z -> P2) (c : R) : (forall i, cross2 (f i) (f (i + 1)%Z) = c) ->
+  forall k s, open_area2 (map f (map Z.of_nat (seq s (S k)))) = INR k * c.
+Proof.
+  intros Hc. induction k as [|k IH]; intros s; [cbn; ring|].
+  cbn [seq map]. cbn [seq map] in IH. specialize (IH (S s)).
+  change (open_area2 (f (Z.of_nat s) :: f (Z.of_nat (S s)) :: map f (map Z.of_nat (seq (S (S s)) k))))
+    with (cross2 (f (Z.of_nat s)) (f (Z.of_nat (S s))) + open_area2 (f (Z.of_nat (S s)) :: map f (map Z.of_nat (seq (S (S s)) k)))).
+  rewrite IH. replace (Z.of_nat (S s)) with (Z.of_nat s + 1)%Z by lia. rewrite Hc. rewrite (S_INR k). change (nadd c (INR k * c)) with (c + INR k * c). ring.
+Qed.
+Lemma dsin_360_minus a : dsin (360 - a) = - dsin a.
+Proof. unfold Rminus. rewrite dsin_plus, dsin_360, dcos_360, dsin_neg. ring. Qed.
+Lemma dsin_pos a : 0 < a < 180 -> 0 < dsin a.
+Proof. intros [H1 H2]. rewrite dsin_def. apply sin_gt_0; pose proof PI_RGT_0; [|]; nra. Qed.
+(* cross product of two turned copies of one vector *)
+Lemma cross2_rotated (v : P2) a b : cross2 (pt2_rotated v a) (pt2_rotated v b) = pt2_len2 v * dsin (b - a).
+Proof.
+  unfold Rminus. rewrite dsin_plus, dsin_neg, dcos_neg. destruct v as [vx vy]. rewrite !pt2_rotated_spec. unfold R2_spec. dred.
+  generalize (dcos a) (dsin a) (dcos b) (dsin b). intros ca sa cb sb. ring.
+Qed.
+
+Definition circle_pt (radius n : R) (i : Z) : P2 := pt2_rotated (Pt2 radius 0) ((IZR i * (- 360)) / n).
+Theorem circle_area (radius : R) (segments : Z) pts : (1 <= segments)%Z -> circle radius segments = Some pts ->
+  area2 pts = - (IZR segments * (radius * radius) * dsin (360 / IZR segments)).
+Proof.
+  intros Hs Hc. unfold circle, arc in Hc. cbn [nleb neqb nofZ nzero NumR] in Hc.
+  destruct (Rleb 360 360) eqn:E1; [|apply Rleb_false in E1; lra].
+  destruct (Reqb 360 360) eqn:E2; [|apply Reqb_false in E2; lra].
+  set (n := IZR segments). assert (Hn : n <> 0) by (unfold n; apply not_0_IZR; lia).
+  set (f := circle_pt radius n).
+  assert (Hpts : pts = map f (zseq segments)) by (inversion Hc; reflexivity). rewrite Hpts. clear Hpts Hc.
+  set (c := - (radius * radius * dsin (360 / n))).
+  assert (Hstep : forall i, cross2 (f i) (f (i + 1)%Z) = c).
+  { intros i. unfold f, circle_pt. rewrite cross2_rotated. rewrite plus_IZR.
+    replace ((IZR i + 1) * - 360 / n - IZR i * - 360 / n) with (- (360 / n)) by (field; exact Hn).
+    rewrite dsin_neg. unfold c. dred. ring. }
+  unfold zseq. destruct (Z.to_nat segments) as [|k] eqn:Ek; [lia|].
+  change (map f (map Z.of_nat (seq 0 (S k)))) with (f 0%Z :: map f (map Z.of_nat (seq 1 k))).
+  cbv beta iota delta [area2].
+  change (f 0%Z :: map f (map Z.of_nat (seq 1 k))) with (map f (map Z.of_nat (seq 0 (S k)))).
+  rewrite (open_area2_const f c Hstep k 0%nat).
+  assert (Hlast : last (map f (map Z.of_nat (seq 0 (S k)))) (f 0%Z) = f (Z.of_nat k)).
+  { rewrite seq_S, !map_app. cbn [map Nat.add]. apply last_app_one. }
+  rewrite Hlast.
+  assert (Hclose : cross2 (f (Z.of_nat k)) (f 0%Z) = c).
+  { unfold f, circle_pt. rewrite cross2_rotated. replace (IZR 0 * - 360 / n - IZR (Z.of_nat k) * - 360 / n) with (360 - 360 / n).
+    - rewrite dsin_360_minus. unfold c. dred. ring.
+    - assert (Hk : IZR (Z.of_nat k) = n - 1) by (unfold n; replace segments with (Z.of_nat k + 1)%Z by lia; rewrite plus_IZR; ring).
+      rewrite Hk. field. exact Hn. }
+  change (nadd (INR k * c) (cross2 (f (Z.of_nat k)) (f 0%Z))) with (INR k * c + cross2 (f (Z.of_nat k)) (f 0%Z)). rewrite Hclose.
+  assert (HINR : INR k = n - 1) by (unfold n; rewrite INR_IZR_INZ; replace segments with (Z.of_nat k + 1)%Z by lia; rewrite plus_IZR; ring).
+  rewrite HINR. unfold c. ring.
+Qed.
+(* hence clockwise (negative shoelace area) for every radius <> 0 and every segment count >= 3 *)
+Theorem circle_clockwise (radius : R) (segments : Z) pts : (3 <= segments)%Z -> radius <> 0 -> circle radius segments = Some pts ->
+  area2 pts < 0.
+Proof.
+  intros Hs Hr Hc. rewrite (circle_area radius segments pts ltac:(lia) Hc).
+  assert (Hn : 3 <= IZR segments) by (apply IZR_le in Hs; exact Hs).
+  assert (Hd : 0 < dsin (360 / IZR segments)).
+  { apply dsin_pos. split; [apply Rdiv_lt_0_compat; lra|]. apply (Rmult_lt_reg_r (IZR segments)); [lra|]. unfold Rdiv. rewrite Rmult_assoc, Rinv_l by lra. lra. }
+  assert (0 < radius * radius) by nra. assert (0 < IZR segments * (radius * radius)) by nra. nra.
+Qed.
+Theorem circumscribed_clockwise (n_sides : Z) (radius : R) pts : (3 <= n_sides)%Z -> radius <> 0 ->
+  circumscribed_polygon n_sides radius = Some pts -> area2 pts < 0.
+Proof.
+  intros Hs Hr Hc. unfold circumscribed_polygon, inscribed_polygon in Hc. eapply circle_clockwise; [exact Hs| |exact Hc].
+  cbn [ndiv nofZ NumR]. assert (Hn : 3 <= IZR n_sides) by (apply IZR_le in Hs; exact Hs).
+  assert (Hcos : 0 < dcos (180 / IZR n_sides)).
+  { rewrite dcos_def. apply cos_gt_0; pose proof PI_RGT_0 as Hpi.
+    - assert (0 < 180 / IZR n_sides) by (apply Rdiv_lt_0_compat; lra). nra.
+    - assert (180 / IZR n_sides <= 60) by (apply (Rmult_le_reg_r (IZR n_sides)); [lra|]; unfold Rdiv; rewrite Rmult_assoc, Rinv_l by lra; lra). nra. }
+  intros E. apply Rmult_integral in E. destruct E as [E|E]; [contradiction|]. pose proof (Rinv_0_lt_compat _ Hcos). lra.
+Qed.
+
+(* ---------------- C07: the edges of a circumscribed polygon are tangent to the given radius ---------------- *)
+Lemma dcos_180_minus a : dcos (180 - a) = - dcos a.
+Proof. unfold Rminus. rewrite dcos_plus, dsin_180, dcos_180, dcos_neg. ring. Qed.
+(* two turned copies of one vector: the line through them passes the origin at distance |v| |cos(delta/2)| *)
+Lemma chord_distance (v : P2) a b :
+  let p := pt2_rotated v a in let q := pt2_rotated v b in let h := dcos ((b - a) / 2) in
+  cross2 p q * cross2 p q = (pt2_len2 v * (h * h)) * pt2_len2 (pt2_sub q p).
+Proof.
+  cbv zeta. rewrite cross2_rotated.
+  assert (Hs : dsin (b - a) = 2 * dsin ((b - a) / 2) * dcos ((b - a) / 2)).
+  { replace (b - a) with ((b - a) / 2 + (b - a) / 2) at 1 by field. rewrite dsin_plus. ring. }
+  assert (Hlen : pt2_len2 (pt2_sub (pt2_rotated v b) (pt2_rotated v a)) = 2 * pt2_len2 v * (1 - dcos (b - a))).
+  { unfold Rminus at 2. rewrite dcos_plus, dsin_neg, dcos_neg. pose proof (dsin2_dcos2 a) as Ha. pose proof (dsin2_dcos2 b) as Hb.
+    destruct v as [vx vy]. rewrite !pt2_rotated_spec. unfold R2_spec. dred. revert Ha Hb. generalize (dcos a) (dsin a) (dcos b) (dsin b). intros ca sa cb sb Ha Hb. nsatz. }
+  assert (Hc : dcos (b - a) = dcos ((b - a) / 2) * dcos ((b - a) / 2) - dsin ((b - a) / 2) * dsin ((b - a) / 2)).
+  { replace (b - a) with ((b - a) / 2 + (b - a) / 2) at 1 by field. rewrite dcos_plus. ring. }
+  rewrite Hlen, Hs, Hc. pose proof (dsin2_dcos2 ((b - a) / 2)) as Hh. revert Hh. generalize (dcos ((b - a) / 2)) (dsin ((b - a) / 2)) (pt2_len2 v). intros c s L Hh. nsatz.
+Qed.
+Theorem circumscribed_tangent (n_sides : Z) (radius : R) pts (i : nat) : (3 <= n_sides)%Z ->
+  circumscribed_polygon n_sides radius = Some pts -> (i < Z.to_nat n_sides)%nat ->
+  let a := nth i pts (Pt2 0 0) in let b := nth (if Nat.eqb i (Z.to_nat n_sides - 1) then 0 else i + 1)%nat pts (Pt2 0 0) in
+  cross2 a b * cross2 a b = radius * radius * pt2_len2 (pt2_sub b a).
+Proof.
+  intros Hs Hc Hi. cbv zeta.
+  set (n := IZR n_sides). assert (Hn3 : 3 <= n) by (unfold n; apply IZR_le in Hs; exact Hs).
+  set (h := dcos (180 / n)).
+  assert (Hh : 0 < h).
+  { unfold h. rewrite dcos_def. apply cos_gt_0; pose proof PI_RGT_0 as Hpi.
+    - assert (0 < 180 / n) by (apply Rdiv_lt_0_compat; lra). nra.
+    - assert (180 / n <= 60) by (apply (Rmult_le_reg_r n); [lra|]; unfold Rdiv; rewrite Rmult_assoc, Rinv_l by lra; lra). nra. }
+  set (R' := radius / h).
+  assert (Hpts : pts = map (circle_pt R' n) (zseq n_sides)).
+  { unfold circumscribed_polygon, inscribed_polygon, circle, arc in Hc. cbn [nleb neqb nofZ nzero NumR] in Hc.
+    destruct (Rleb 360 360) eqn:E1; [|apply Rleb_false in E1; lra]. destruct (Reqb 360 360) eqn:E2; [|apply Reqb_false in E2; lra].
+    inversion Hc. reflexivity. }
+  assert (Hnth : forall j, (j < Z.to_nat n_sides)%nat -> nth j pts (Pt2 0 0) = circle_pt R' n (Z.of_nat j)).
+  { intros j Hj. rewrite Hpts. rewrite (nth_map' (circle_pt R' n) _ j _ 0%Z) by (rewrite zseq_length by lia; exact Hj). rewrite zseq_nth by exact Hj. reflexivity. }
+  rewrite Hnth by exact Hi. rewrite Hnth by (destruct (Nat.eqb_spec i (Z.to_nat n_sides - 1)); lia).
+  unfold circle_pt. rewrite chord_distance.
+  assert (Hlen : pt2_len2 (Pt2 R' 0) = R' * R') by (dred; ring). rewrite Hlen.
+  assert (Hn0 : n <> 0) by lra.
+  f_equal. destruct (Nat.eqb_spec i (Z.to_nat n_sides - 1)) as [E|E].
+  - (* the closing edge: the half angle is 180 - 180/n *)
+    assert (Hi' : IZR (Z.of_nat i) = n - 1) by (unfold n; replace n_sides with (Z.of_nat i + 1)%Z by lia; rewrite plus_IZR; ring).
+    replace ((IZR (Z.of_nat 0) * - 360 / n - IZR (Z.of_nat i) * - 360 / n) / 2) with (180 - 180 / n) by (rewrite Hi'; cbn [Z.of_nat]; field; exact Hn0).
+    rewrite dcos_180_minus. fold h. unfold R'. field. lra.
+  - replace ((IZR (Z.of_nat (i + 1)) * - 360 / n - IZR (Z.of_nat i) * - 360 / n) / 2) with (- (180 / n)) by (rewrite Nat2Z.inj_add, plus_IZR; cbn [Z.of_nat]; field; exact Hn0).
+    rewrite dcos_neg. fold h. unfold R'. field. lra.
+Qed.
